@@ -4,6 +4,7 @@ from ..r_codebooks import rule_smiles_codebooks, rule_mark_parity, rule_field_co
 from ..r_stereo import rule_tetrahedron_table, rule_alkene_table, rule_ladders
 from ..r_codebooks import rule_closure_slots as _rule_closure_slots
 from ..r_construct import rule_seeded_string_complete as _rule_seeded
+from ..r_hygiene import rule_hygiene as _rule_hygiene
 
 LEVEL = 'other'
 
@@ -20,3 +21,4 @@ def run(ck, repo):
     rule_ladders(ck, repo, table)
     _rule_closure_slots(ck, repo, 'C02.D2-closure-slots')
     _rule_seeded(ck, repo, 'C02.D2-seeded-string')
+    _rule_hygiene(ck, repo, 'C02.H-dataflow-hygiene', 'C02')
